@@ -34,6 +34,12 @@ def layout_config(endian='big', address_bits=16, origin=None, page_size=None, zo
     cfg['operand_sets']['imm12'] = {'operand_values': {'n': {'type': 'numeric', 'argument': {'size': 12, 'byte_align': False}}}}
     cfg['instructions']['ld12'] = {'bytecode': {'value': 0xB, 'size': 4},
                                    'operands': {'count': 1, 'operand_sets': {'list': ['imm12']}}}
+    # relative branches, braced and bare (used by the C14 fault catalogue)
+    cfg['operand_sets']['relb'] = {'operand_values': {'r': {'type': 'relative_address', 'use_curly_braces': True,
+                                                            'argument': {'size': 8, 'byte_align': True}}}}
+    cfg['operand_sets']['reln'] = {'operand_values': {'r': {'type': 'relative_address', 'argument': {'size': 8, 'byte_align': True}}}}
+    cfg['instructions']['jrb'] = {'bytecode': {'value': 0x30, 'size': 8}, 'operands': {'count': 1, 'operand_sets': {'list': ['relb']}}}
+    cfg['instructions']['jrn'] = {'bytecode': {'value': 0x31, 'size': 8}, 'operands': {'count': 1, 'operand_sets': {'list': ['reln']}}}
     # a macro whose steps are not whole bytes: two 4-bit instructions, each padded to its own byte
     cfg['macros'] = {'nn2': [{'instructions': ['nib', 'nib']}]}
     mz = []
@@ -152,6 +158,10 @@ class LayoutShape(PipeShape):
             li = cands[0]
             seen.add((r.file, r.line))
             addr_ok.append(zv(li.address) == r.addr)
+            if r.st[0] == 'strdata':
+                # a string under a multi-byte data directive: only "emitted == reserved" is claimed
+                bytes_ok.append(z3.BoolVal(li.bytes is not None) if li.bytes is None else E.bvval(len(li.bytes)) == zv(li.byte_size))
+                continue
             size_ok.append(zv(li.byte_size) == r.size)
             if r.seg is not None:
                 if li.bytes is None:
